@@ -16,13 +16,18 @@ def main():
             continue
         m = json.load(open(mp))
         ch = m.get("checks", {})
+        if m.get("breaks_property", "").startswith("none"):
+            rows.append("| `%s` | — (harmless) | %s | — | — | all 20 |" % (name, m.get("needs_to_manifest", "")))
+            continue
         replay = sorted(k for k, v in ch.items() if v == "violation with replay")
         tie = sorted(k for k, v in ch.items() if v.startswith("violation (no-"))
         ok = sorted(k for k, v in ch.items() if v == "ok")
+        qp = m.get("quick_pipeline", {})
+        mons = " ".join("%s:%d" % kv for kv in sorted(qp.get("programs_rejected_by_monitor_of", {}).items()))
         rows.append("| `%s` | %s | %s | %s | %s | %s |" % (
             name, m.get("breaks_property", "?"), m.get("needs_to_manifest", ""),
-            " ".join(replay) or "—", " ".join(tie) or "—", " ".join(ok) or "—"))
-    print("| seeded change | breaks | needs, to manifest | replay (concrete failing input) | tie (no-failing-input-found) | quiet |")
+            " ".join(replay) or "—", " ".join(tie) or "—", mons or "—"))
+    print("| seeded change | breaks | needs, to manifest | checks run: VIOLATION with a concrete replay | checks run: no-failing-input-found | programs (of the quick batch) rejected per property's monitor |")
     print("|---|---|---|---|---|---|")
     print("\n".join(rows))
 
